@@ -1,11 +1,16 @@
 package net
 
 import (
+	"bytes"
+	"encoding/binary"
 	"fmt"
+	"hash"
+	"strings"
 	"testing"
 	"time"
 
 	"github.com/scionproto/scion/pkg/addr"
+	"github.com/scionproto/scion/pkg/scrypto"
 	"github.com/scionproto/scion/private/path/combinator"
 
 	"verif/mc"
@@ -59,12 +64,92 @@ func c28UsesString(c *c28Cand) []string {
 	return out
 }
 
+var c28MacCache = map[string]func() hash.Hash{}
+
+// c28FullMAC recomputes the full 16-byte hop-field MAC (scion-header.rst: MAC over 0|beta|timestamp|0|ExpTime|
+// ConsIngress|ConsEgress|0 with the AS's forwarding key); its first 6 bytes are the MAC in the hop field, the EPIC
+// authenticator of a hop is the full value.
+func c28FullMAC(key []byte, ts uint32, h c28Hop) []byte {
+	f := c28MacCache[string(key)]
+	if f == nil {
+		var err error
+		if f, err = scrypto.HFMacFactory(key); err != nil {
+			return nil
+		}
+		c28MacCache[string(key)] = f
+	}
+	in := make([]byte, 16)
+	binary.BigEndian.PutUint16(in[2:], h.Beta)
+	binary.BigEndian.PutUint32(in[4:], ts)
+	in[9] = h.Exp
+	binary.BigEndian.PutUint16(in[10:], h.ConsIn)
+	binary.BigEndian.PutUint16(in[12:], h.ConsEg)
+	m := f()
+	m.Write(in)
+	return m.Sum(nil)
+}
+
+// c28EpicSide classifies Metadata.EpicAuths of a returned path against the model (side comparison, see Assumptions):
+// the authenticators are expected iff the AS entries of the last two hops carry the EPIC extension, and each should
+// be the full MAC of the hop field actually traversed.
+func c28EpicSide(n *netsim.Net, c *c28Cand, p combinator.Path) string {
+	type th struct {
+		ts uint32
+		h  c28Hop
+	}
+	var hops []th
+	for _, s := range c.Segs {
+		for _, h := range s.Hops {
+			hops = append(hops, th{s.TS, h})
+		}
+	}
+	ea := p.Metadata.EpicAuths
+	have := len(ea.AuthPHVF) > 0 || len(ea.AuthLHVF) > 0
+	want := len(hops) >= 2 && hops[len(hops)-1].h.HasEpic && hops[len(hops)-2].h.HasEpic
+	anyEpic := false
+	for _, x := range hops {
+		anyEpic = anyEpic || x.h.HasEpic
+	}
+	switch {
+	case !anyEpic && !have:
+		return ""
+	case !want && !have:
+		return "absent-as-expected(last two hops not both EPIC)"
+	case want && !have:
+		return "MISSING-although-last-two-hops-carry-the-extension"
+	case !want && have:
+		return "PRESENT-although-last-two-hops-do-not-both-carry-the-extension"
+	}
+	res := "present"
+	for k, got := range [][]byte{ea.AuthPHVF, ea.AuthLHVF} {
+		x := hops[len(hops)-2+k]
+		full := c28FullMAC(n.T.ASes[n.ASIndex(x.h.IA)].Key, x.ts, x.h)
+		kind := "regular-hop"
+		if x.h.PeerHop {
+			kind = "peer-hop"
+		}
+		switch {
+		case full == nil || !bytes.Equal(full[:6], x.h.MAC[:]):
+			return "model-mac-recomputation-failed"
+		case len(got) != 16:
+			res += fmt.Sprintf("/%s:WRONG-LENGTH", kind)
+		case bytes.Equal(got, full):
+			res += fmt.Sprintf("/%s:full-mac", kind)
+		case bytes.Equal(got[6:], full[6:]):
+			res += fmt.Sprintf("/%s:TAIL-OK-HEAD-IS-NOT-THE-HOP-FIELD-MAC", kind)
+		default:
+			res += fmt.Sprintf("/%s:TAIL-OF-ANOTHER-ENTRY", kind)
+		}
+	}
+	return res
+}
+
 func TestC28(t *testing.T) {
 	r := mc.NewRun(t, "C28", mc.Exploration)
 	r.Rule = "topology family (netsim.CombFamily: core meshes, trees, multi-homing, parallel links, peering subsets incl. parallel / leaf / " +
 		"core peering, 2 ISDs) x parameter perturbations re-beaconed through the real extender (each AS: MTU and MaxExpTime lowered; each link: " +
 		"MTU lowered; second, older beacon generation in both supply orders; newer generation expiring earlier via one AS; all segments of " +
-		"all ASes supplied; thorough: also all ordered pairs of these) x all ordered AS pairs x findAllIdentical {false,true} x every returned " +
+		"all ASes supplied; detachable EPIC extension on all / every second / each single AS and on one of two generations; thorough: also all ordered pairs of these) x all ordered AS pairs x findAllIdentical {false,true} x every returned " +
 		"path; distinct key = variant + pair + mode + info/hop fields of the path; non-trivial = all returned paths"
 	thorough := mc.Thorough()
 	maxLen := mc.Pick(5, 6)
@@ -72,6 +157,7 @@ func TestC28(t *testing.T) {
 	var nVariants, nCombine, nPaths, nCands int64
 	mtuKinds := map[string]int64{}
 	expSegs := map[string]int64{}
+	epicSide := map[string]int64{}
 	bubble(t, func(t *testing.T) {
 	topoLoop:
 		for ti, tp := range topos {
@@ -252,6 +338,16 @@ func TestC28(t *testing.T) {
 										r.Outcome("unique/alternatives-with-equal-expiry")
 									}
 								}
+								if es := c28EpicSide(ss.N, c, p); es != "" {
+									epicSide[es]++
+									switch {
+									case es == "model-mac-recomputation-failed":
+										r.HarnessError("%s: the model's beta chain does not reproduce the hop field MAC (%v)", vname, c28UsesString(c))
+									case strings.Contains(es, "WRONG-LENGTH") || strings.Contains(es, "TAIL-") || strings.Contains(es, "PRESENT-although"):
+										r.Violation("epic-authenticator-is-not-the-full-mac-of-the-traversed-hop/"+c.Kind, pd("classification", es,
+											"auth_phvf", fmt.Sprintf("%x", p.Metadata.EpicAuths.AuthPHVF), "auth_lhvf", fmt.Sprintf("%x", p.Metadata.EpicAuths.AuthLHVF), "segments", c28UsesString(c)))
+									}
+								}
 								r.Outcome("ok/" + c.Kind)
 								if nPaths%4001 == 1 {
 									r.Sample(pd("segments", c28UsesString(c), "kind", c.Kind))
@@ -279,12 +375,17 @@ func TestC28(t *testing.T) {
 	r.Extra["mtu_minimum_realised_by"] = mtuKinds
 	r.Extra["earliest_expiry_in"] = expSegs
 	r.Extra["max_beacon_walk_len"] = maxLen
+	r.Extra["epic_authenticators_side_comparison"] = epicSide
 	r.Assumptions = []string{
 		"'passes no AS more than twice' is read as documented at filterLongPaths: no AS owns more than two entries of the interface list",
 		"weight = number of inter-AS links of the path (package doc: number of transited AS hops); both the Weight field and this count must be non-decreasing",
 		"segments are produced by the real DefaultExtender (ECDSA signatures, per-AS keys); single-entry changes are realised by changing the topology parameter " +
 			"the entry is computed from, not by editing signed segments",
 		"'latest expiry' representative: compared with the latest expiry over ALL valid combinations with that interface sequence found by the clean-room enumerator",
+		"Metadata.EpicAuths is not named in the property statement ('metadata is accurate' is read to include it where present): on segment sets carrying the EPIC " +
+			"extension Combine must neither panic nor return anything but model joins, and authenticators that ARE returned must be the independently recomputed " +
+			"full MACs of the penultimate and last hop fields actually traversed; whether they are present whenever the last two hops carry the extension is only " +
+			"recorded (coverage.epic_authenticators_side_comparison)",
 		"the topology MTU ground truth assumes the extender copies interface/AS MTUs faithfully (a mismatch is reported under its own key)",
 	}
 	r.Finish(8)
